@@ -723,6 +723,7 @@ func main() {
 		},
 		Gen:           gen,
 		Shards:        14,
+		UnstableList:  true,
 		MinNontrivial: 100,
 		Exhaustive:    func(tier string) bool { return tier == "thorough" },
 	})
